@@ -140,7 +140,8 @@ def capture_physical(plan, out_node, built):
             keys[n] = (k[0], name)
     preds = {keys[n]: sorted({keys[p] for p in g.predecessors(n)}, key=repr) for n in g.nodes()}
     edges = [(keys[u], keys[v], repr(k)) for u, v, k in g.edges(keys=True)]
-    return dict(preds=preds, edges=edges, out=None if out_node is None else keys[out_node], nodes=list(preds))
+    return dict(preds=preds, edges=edges, out=None if out_node is None else keys[out_node], nodes=list(preds),
+                by_node={id(n): k for n, k in keys.items()}, keep_alive=list(keys))
 
 
 # --------------------------------------------------------------------------
